@@ -528,7 +528,7 @@ def boundary_scan(ctx, n_cfg):
             rows = int_rows(res[1]) if res[0] == "ok" else None
             ctx.evaluations += 1
             if res[0] != "ok" or rows != exp:
-                bad = (N, res[0] if res[0] != "ok" else ("count" if len(rows) != len(exp) else "value"))
+                bad = (N, res[0] if res[0] != "ok" else ("unreadable" if rows is None else ("count" if len(rows) != len(exp) else "value")))
                 if is_wf and not inpre:
                     ctx.mismatch(dict(case, M=M, tr=tr, D=D, wf=True), exp, rows if res[0] == "ok" else res[0],
                                  "implementation != documented formula inside WF but outside the property's precondition")
